@@ -367,9 +367,71 @@ def seq_terms(e: ast.AST) -> List[str]:
             else:
                 out.append("each " + norm(inner))
         elif isinstance(x, (ast.ListComp, ast.GeneratorExp)):
+            g0 = x.generators[0]
+            it0 = strip_pre(g0.iter)
+            if len(x.generators) == 1 and not g0.ifs and isinstance(g0.target, ast.Name) and isinstance(it0, (ast.List, ast.Tuple)) and not any(isinstance(i, ast.Starred) for i in it0.elts):
+                # a comprehension over a literal display is that display, element by element
+                import copy as _copy
+                for item in it0.elts:
+                    class _S(ast.NodeTransformer):
+                        def visit_Name(self, n, item=item, tgt=g0.target.id):
+                            return _copy.deepcopy(item) if n.id == tgt and isinstance(n.ctx, ast.Load) else n
+                    out.append(norm(_S().visit(_copy.deepcopy(x.elt))))
+                return
             el, gens = comp_struct(x)
             out.append("each " + el + "".join(f" for {it}" + "".join(f" if {c}" for c in cs) for it, cs in gens))
         else:
             out.append("<" + norm(x) + ">")
     rec(e)
     return out
+
+
+def expand_elem_terms(text: str) -> List[str]:
+    """`<elem>(chain(A, B))` stands for an element of A or of B; `<elem>(chain.from_iterable(X))` for an element of an
+    element of X; likewise `A + B`, `[*A, *B]`, `list(A)`.  Returns the alternatives (the text itself when nothing applies)."""
+    import copy as _copy
+    src = str(text).replace("<elem>", "_ELEM_")
+    try:
+        tree = ast.parse(src, mode="eval").body
+    except SyntaxError:
+        return [str(text)]
+
+    def alts(arg: ast.AST) -> Optional[List[ast.AST]]:
+        if isinstance(arg, ast.Call) and norm(arg.func) in ("chain", "itertools.chain") and arg.args and not arg.keywords:
+            return list(arg.args)
+        if isinstance(arg, ast.Call) and norm(arg.func) in ("chain.from_iterable", "itertools.chain.from_iterable") and len(arg.args) == 1:
+            return [ast.Call(func=ast.Name(id="_ELEM_", ctx=ast.Load()), args=[arg.args[0]], keywords=[])]
+        if isinstance(arg, ast.BinOp) and isinstance(arg.op, ast.Add):
+            return [arg.left, arg.right]
+        if isinstance(arg, (ast.List, ast.Tuple)) and arg.elts and all(isinstance(e, ast.Starred) for e in arg.elts):
+            return [e.value for e in arg.elts]
+        if isinstance(arg, ast.Call) and isinstance(arg.func, ast.Name) and arg.func.id in ("list", "tuple", "iter") and len(arg.args) == 1 and not arg.keywords:
+            return [arg.args[0]]
+        return None
+
+    def step(t: ast.AST) -> Optional[List[ast.AST]]:
+        for n in ast.walk(t):
+            if isinstance(n, ast.Call) and isinstance(n.func, ast.Name) and n.func.id == "_ELEM_" and len(n.args) == 1:
+                a = alts(n.args[0])
+                if a is not None:
+                    out = []
+                    for x in a:
+                        t2 = _copy.deepcopy(t)
+                        for m in ast.walk(t2):
+                            if isinstance(m, ast.Call) and isinstance(m.func, ast.Name) and m.func.id == "_ELEM_" and len(m.args) == 1 and ast.dump(m.args[0]) == ast.dump(n.args[0]):
+                                m.args[0] = _copy.deepcopy(x)
+                                break
+                        out.append(t2)
+                    return out
+        return None
+    work, done = [tree], []
+    guard = 0
+    while work and guard < 64:
+        guard += 1
+        t = work.pop()
+        r = step(t)
+        if r is None:
+            done.append(t)
+        else:
+            work.extend(r)
+    return sorted({ast.unparse(t).replace("_ELEM_", "<elem>") for t in done + work})
